@@ -61,8 +61,11 @@ def ph_case(draw, tier, shard=0, nshards=1):
     p = draw(sl.problem(walker_types=(c["wt"],), shapes={c["wt"]: [c["shape"]]}, n_walkers=(c["nw"],), dts=(dt,), nchol=(2,), chol_scale=(0.3, 1.0, 3.0)))
     p["n_batch"] = 1
     steps = draw(st.integers(10, 60 if tier == "quick" else 120))
+    # a badly estimated trial energy drives the importance factor e^{dt (E_est - E_L)} across both edges of the window
+    p["e_est_offset"] = draw(st.sampled_from([0.0, 0.0, 12.0, -12.0, 40.0, 150.0]))
     p.update({"steps": steps, "poor_trial": draw(st.booleans()), "faults": _fault_list(draw, steps, c["nw"], 2), "perturb": draw(st.sampled_from([0.02, 0.2])),
-              "w0": [draw(st.sampled_from([1.0, 1.0, 0.5, 50.0, 0.0])) for _ in range(c["nw"])]})
+              # small starting weights: a one-step factor above 100 then survives the product clip and must be caught by the factor window itself
+              "w0": [draw(st.sampled_from([1.0, 1.0, 0.5, 50.0, 0.0, 1e-3, 0.02])) for _ in range(c["nw"])]})
     if p["poor_trial"]:
         p["trial_orbs"] = draw(gens.orbitals(c["shape"][0], c["shape"][0], True))
     return p
@@ -117,6 +120,11 @@ def ph_body(ctx, case):
         ctx.count("rejected:initial-overlap-zero")
         hypothesis.assume(False)
     pd["weights"] = jnp.asarray(np.asarray(case["w0"], float))
+    pd["e_estimate"] = pd["e_estimate"] + float(case.get("e_est_offset", 0.0))
+    pd["pop_control_ene_shift"] = pd["e_estimate"]
+    # the guarded hook is used only to classify what the history exercised (which window edges were reached)
+    pd["verif_imp_fun"] = jnp.zeros((P.nw,), complex)
+    pd["verif_theta"] = jnp.zeros((P.nw,))
     faults = case["faults"]
     tagp = f"phaseless:{P.wt}"
     steps = int(case["steps"])
@@ -137,6 +145,13 @@ def ph_body(ctx, case):
             ctx.fail(f"{tagp}:raised-{type(e).__name__}", case, f"step {s}: {type(e).__name__}: {str(e)[:200]}")
             return
         w_new = np.asarray(pd["weights"])
+        fraw = np.abs(np.asarray(pd["verif_imp_fun"])) * np.cos(np.asarray(pd["verif_theta"]))
+        if np.any((fraw > 100) & (w_old > 0)):
+            ctx.count("step-with-factor-above-100")
+            if np.any((fraw > 100) & (w_old > 0) & (fraw * w_old <= 100)):
+                ctx.count("step-with-factor-above-100-and-product-below-100")
+        if np.any((fraw > 0) & (fraw < 1e-3) & (w_old > 0)):
+            ctx.count("step-with-factor-below-1e-3")
         if not check_step(ctx, case, tagp, s, w_old, w_new, float(np.asarray(pd["pop_control_ene_shift"])), "phaseless"):
             ok = False
             break
